@@ -9,6 +9,11 @@
 (*        res/xidok are those of the request.  Under lens C01 this is C01's    *)
 (*        availability sentence observed on the real receive loop              *)
 (*        (Lifecycle!Datagram keeps srv[i] = "reading": ServesWhileOpen)       *)
+(*  startrace {cfg, res, sent, replies, bare}   SOLICITs every 2 ms from before *)
+(*        server.Start (a chain with a 300 ms plugin setup that succeeds /     *)
+(*        fails) until after it returned: bare = replies the configured chain  *)
+(*        did not produce.  C13 at start-up (Lifecycle!NeverServesBare,        *)
+(*        FailedLoadNeverListened)                                             *)
 (*  wait {res}                  Wait() after Close()                           *)
 EXTENDS Integers, Sequences, TLC, Json
 
@@ -36,13 +41,20 @@ TDatagram == /\ IsEvent("dgs")
              /\ LET e == Trace[l] IN
                 (On \/ "C01" \in Lens) => (e.res = "reply" /\ e.xidok)     \* later datagrams are still handled
              /\ UNCHANGED <<n, started>>
+TStartRace == /\ IsEvent("startrace")
+              /\ LET e == Trace[l] IN
+                 (On \/ "C13" \in Lens) =>
+                    /\ e.res = (IF e.cfg = "ok" THEN "ok" ELSE "err")     \* a failing plugin setup aborts start-up
+                    /\ e.bare = 0                                         \* every answer went through the configured chain
+                    /\ e.cfg = "fail" => e.replies = 0                    \* a rejected configuration never answered
+              /\ UNCHANGED <<n, started>>
 TWait == /\ IsEvent("wait")
          /\ On => Trace[l].res = "returned"                               \* WaitReturns
          /\ UNCHANGED <<n, started>>
 TNote == IsEvent("note") /\ UNCHANGED <<n, started>>
 
 TraceInit == l = 1 /\ n = 0 /\ started = FALSE
-TraceNext == TStart \/ TPorts \/ TRoundTrip \/ TDatagram \/ TWait \/ TNote
+TraceNext == TStart \/ TPorts \/ TRoundTrip \/ TDatagram \/ TStartRace \/ TWait \/ TNote
 TraceSpec == TraceInit /\ [][TraceNext]_tvars
 TraceAccepted ==
   LET d == TLCGet("stats").diameter
